@@ -22,7 +22,7 @@ Implementation: Regex-based line-by-line scanning with docstring-aware state tra
 import re
 from pathlib import Path
 
-from src.linters.lazy_ignores.directive_utils import create_directive
+from src.linters.lazy_ignores.directive_utils import create_directive, multiline_string_interior
 from src.linters.lazy_ignores.types import IgnoreDirective, IgnoreType
 
 
@@ -161,6 +161,12 @@ class PythonIgnoreDetector:
         Returns:
             List of (line_number, line_text) tuples for scannable lines
         """
+        interior = multiline_string_interior(code)
+        if interior is not None:
+            lines = enumerate(code.split("\n"), start=1)
+            return [(line_num, line) for line_num, line in lines if line_num not in interior]
+
+        # The tokenizer gave up (broken source): fall back to counting triple quotes per line
         in_docstring = [False, False]  # [triple_double, triple_single]
         quotes = ['"""', "'''"]
         scannable: list[tuple[int, str]] = []
